@@ -149,6 +149,11 @@ class C20(Lab):
             # the same for other byte containers
             if len(d) <= 16 and (self.call(list(d)) != want or self.call(bytearray(d)) != want or self.call(memoryview(d)) != want or self.call(tuple(d)) != want):
                 raise Violation("C20/value", f"crc7 differs between bytes/list/bytearray for {d.hex()}")
+            # one-shot iterables (an iterator over a receive buffer, a generator): consumed once, same result
+            if len(d) <= 64:
+                for mk in (lambda: iter(d), lambda: (x for x in d), lambda: map(int, d), lambda: reversed(bytes(reversed(d)))):
+                    if self.call(mk()) != want:
+                        raise Violation("C20/value-one-shot-iterable", f"crc7(<one-shot iterable over {d.hex()}>) = {self.call(mk())}, bit-serial {want}")
             # a call that fails part-way (an element that is no byte) must not leave anything behind
             if 1 <= len(d) <= 32:
                 for bad in (list(d) + [256], list(d) + [-1000], list(d) + ["x"]):
